@@ -21,8 +21,8 @@ MANIFEST = {
 INVARIANTS = ["C39_AlwaysRunRuns", "C39_CurrentAttempt"]
 PROPERTIES = ["C39_OnlyCurrentCompletes", "C39_NoDoubleRun"]
 LIVE = ["C39_Terminates", "C39_CancelledCompletes"]
-QUICK = ["chain2", "alw", "jpim_s"]
-THOROUGH = ["chain2", "alw", "jpim_s", "nest_s", "sib", "upd2", "diamond", "retry_s", "grp2"]
+QUICK = ['chain2', 'alw', 'jpim_s']
+THOROUGH = ['chain2', 'alw', 'jpim_s', 'nest_s', 'sib', 'upd2', 'diamond', 'retry_s', 'grp2', 'jpim_u2', 'vee2', 'upd3']
 LIVE_QUICK = ["chain2", "alw", "jpim_s"]
 LIVE_THOROUGH = ["chain2", "alw", "nest_s", "jpim_s", "sib", "upd2", "diamond", "grp2", "clean"]
 
@@ -37,4 +37,4 @@ def run(ctx):
         ctx.add_tlc(res, f"BatchDBLive program {n}: liveness {LIVE} under fairness" + (" (cached)" if getattr(res, "cached", False) else ""))
         for v in res.violations:
             ctx.violation(f"liveness:{v.name}:{n}", {"program": n, "trace": [h for h, _ in v.trace][-25:]})
-    B.run_property(ctx, "C39", INVARIANTS, PROPERTIES, QUICK, THOROUGH, (), check_selection=True)
+    B.run_property(ctx, "C39", INVARIANTS, PROPERTIES, QUICK, THOROUGH, (), check_selection=True, overlap=['chain2', 'alw'])
